@@ -21,7 +21,7 @@ def _del_lines(text, first, last):
 def mutate(ws, rel, text, rng, names):
     """returns (new_text, op) — one edit of a document"""
     m = FileModel(text)
-    ops = ["add_fixture", "add_usage", "shift", "resend", "resend"]
+    ops = ["add_fixture", "add_usage", "shift", "resend", "resend", "only_undeclared", "plain_file"]
     if m.ok:
         if m.defs:
             ops += ["remove_fixture", "rename_fixture", "remove_all_fixtures", "toggle_selfparam"] * 2
@@ -32,6 +32,13 @@ def mutate(ws, rel, text, rng, names):
             ops += ["imports_only"] * 2
         ops += ["break_truncate", "break_paren", "add_undeclared_use"]
     op = rng.choice(ops)
+    if op == "only_undeclared":
+        # nothing but a parameter-less test that uses a fixture name in its body
+        n = rng.choice(names)
+        return f"def test_only_body():\n    v = {n}\n    return {n}.x\n", op
+    if op == "plain_file":
+        # no fixture, no usage, no finding at all
+        return "def test_plain():\n    pass\n", op
     if op == "add_fixture":
         n = rng.choice(names + [f"extra_{rng.randint(0, 3)}"])
         dep = rng.choice(names)
